@@ -207,6 +207,9 @@ def texts(rnd, n):
            '99:99:99', '9:99', '99:59', '100:00', '1:00:00:00', 'abc', '1e3', '1,000', '1 00', '-5', '+5', '5.', '.5', '5..5', '5:', ':5', '6.5.4.3', '2.45',
            '2.46', '2.94', '2.95', '8.95', '10.74', '10.75', '23.12', '27.74', '27.75', '104.80', '125.76', '125.77', '1.8', '18', '180', '7000', '7000.5',
            '9999', '10000', '09999', '1234.0', '12 34', '8:', '6,50', '6,5,0', '１２.5', '٣.5', '5\n', '\t12.5 ']
+    for pre in ('', '1:', '59:', '1:00:', '1:59:', '2:30:', '0:59:', '00:', '3:00:', '12:', '1:01:'):
+        for sec in ('59.99', '59.994', '59.995', '59.999', '59.9999', '59,9991', '9.999', '9.995', '09.996', '59.9', '00.004', '00.005', '0.999'):
+            out.append(pre + sec)
     digs = '0123456789'
     for _ in range(n):
         nf = rnd.choice([1, 1, 2, 2, 3])
@@ -242,6 +245,17 @@ def run_shard(ctx, spec):
     opts = [(g, p) for g in ('all', 'm', 'f', 'M') for p in (None, 0, 1, 2, 3)]
     f = mon.f
     mine = events[spec['i']::spec['n']]
+    if spec['i'] == 0:
+        # history: two spellings that differ only in letter case (50m = 50 metres, 50M = 50 miles; Mar / MAR) are validated
+        # alternately in one process - a memo keyed on the case-folded code would answer one with the other's distance
+        pairs = [('50m', '50M'), ('100m', '100M'), ('Mar', 'MAR'), ('5k', '5K'), ('10m', '10M'), ('mile', 'MILE'), ('3000w', '3000W'), ('hm', 'HM')]
+        hist_texts = ['6.45', '14:30:00', '2:10:00', '10.5', '15:00', '25:00.5', '1:05:00', '59.5', '4:10.2', '12:00:00', '20:00:00']
+        for a, b in pairs:
+            for order in ((a, b), (b, a)):
+                for t in hist_texts:
+                    for ev in order:
+                        attach.call(f, ev, t, errorKlass=CustomError)
+                    ctx.count('eval.case-pair-history')
     for ei, ev in enumerate(mine):
         customary = ev in CUSTOMARY
         for t in T:
